@@ -30,6 +30,16 @@ Proof.
   intros. split; [apply gen_getitem_is_select|]. split; [apply gen_smc_getitem| apply gen_samples_getitem].
 Qed.
 
+(* ... also when the set has NO weights (a density is absent) but carries an evidence — the shape of every SMC result
+   (SMCSamples.to_standard_samples drops log_q and attaches the run's evidence) *)
+Theorem C16_select_unweighted_carries_evidence : forall {X} (x : list X) ll lp le lee idx dX,
+  samples_getitem_unweighted_x x ll lp le lee idx dX = select idx x dX
+  /\ samples_getitem_unweighted_log_likelihood x ll lp le lee idx dX = select idx ll 0%R
+  /\ samples_getitem_unweighted_log_prior x ll lp le lee idx dX = select idx lp 0%R
+  /\ samples_getitem_unweighted_log_evidence x ll lp le lee idx dX = le
+  /\ samples_getitem_unweighted_log_evidence_error x ll lp le lee idx dX = lee.
+Proof. intros. apply gen_samples_getitem_unweighted. Qed.
+
 (* row j of a selection is row idx_j of the source, in all fields at once (any index kind) *)
 Theorem C16_rows_aligned : forall (X V : Type) (dX : X) (dV : V) i (s : sset X V),
   rows_of X V dX dV (getitem X V dX dV i s) = map (row_at X V dX dV s) (idx_of (length (a_x _ _ s)) i).
@@ -53,6 +63,7 @@ Theorem C16_sequences : forall (X V : Type) (dX : X) (dV : V) ops (s : sset X V)
 Proof. exact ops_refine_top. Qed.
 
 Print Assumptions C16_select_uniform.
+Print Assumptions C16_select_unweighted_carries_evidence.
 Print Assumptions C16_rows_aligned.
 Print Assumptions C16_concat_partition.
 Print Assumptions C16_sequences.
